@@ -37,6 +37,19 @@ def scenarios(rng, tier):
             t = l.split()
             s.lines.append(l)
             s.lines.append(' '.join([t[0], '1'] + t[2:]))
+    for k in range(20 if tier == 'quick' else 400):
+        base_cfg = Cfg(0, mtu=rng.choice([576, 1500])); c1 = Cfg(1, **dict(base_cfg.d)); own = base_cfg.own(); M = mac(1)
+        s.start('swap_%d' % k); s.lines.append(base_cfg.line()); s.lines.append(c1.line())
+        first_icon = rng.choice([b'', b'', bytes(range(100))])
+        s.lines.append(gline(host=b'h', icon=first_icon, fname=b'n'))
+        G = rng.choice([0x1234, 0x00FF, 0x3412, rng.randrange(1, 65536)]); Gs = ((G & 255) << 8) | (G >> 8)
+        t1 = rng.choice([0, 1]); s.frame(0, discover(M, tos=t1, gen=G, seq=3)); s.frame(0, discover(M, tos=1 - t1, gen=Gs, seq=3))
+        s.frame(0, qlt(M, own, 14, 0, seq=4)); s.frame(0, probe(mac(70), own, mac(70), own))
+        if rng.random() < 0.5: s.frame(0, reset(M, tos=1))
+        s.lines.append(gline(host=b'h', icon=bytes(range(200)) + bytes(range(100)), fname=b'n'))
+        s.frame(0, reset(M, tos=0))
+        for fr in (discover(M, tos=t1, gen=Gs, seq=9), discover(M, tos=1 - t1, gen=G, seq=9), discover(M, tos=1, gen=Gs, seq=10), qlt(M, own, 14, 0, seq=11), query(M, own, seq=12), qlt(M, own, 14, 100, seq=13, tos=1)):
+            s.frame(0, fr); s.frame(1, fr)
     return [(s.text(), {})]
 def project(blk, name, meta):
     # kinds and sizes of the frames sent per received frame (the byte-for-byte comparison the property asks for is made
